@@ -30,4 +30,7 @@ if "## 10. As built" in s:
     j=s.index("## 10. As built"); s=s[:j]+s[i:] if j<i else s
     i=s.index("---------------------------------------------------------------------------------------------------\n\n## Appendix A")
 s=s[:i]+sec10+"\n"+s[i:]
+import re
+sep='-'*99+'\n'
+s=re.sub(r'(?:'+re.escape(sep)+r'\n*){2,}', sep+'\n', s)
 open(p,'w').write(s)
